@@ -273,9 +273,12 @@ if __name__ == "__main__":
         "a manager with low = 0 or high = 0 is disabled by configuration: the 'at most low-watermark connections remain' clause is not demanded of it",
         "a negative low watermark (NewConnManager accepts any int) is read as 0 by the monitor's 'at most low-watermark connections remain' clause; "
         "no precondition on the configuration is left in the theorems; the harness uses low in -1..7",
-        "the background loop's trim() is the same getConnsToClose + close as TrimOpenConns: in the theorems it is a TrimOpenConns issued by the environment at any "
-        "point (sequential model: a Trim op anywhere in the history; LTS: ABegin whenever no trim is in flight); NOT modelled: that loop calls trim() without trimMutex, so "
-        "it can overlap another trim - two trims in flight at once are outside the LTS; the harness sets the silence period so that the loop never fires inside a case",
+        "the background loop's trim() is the same getConnsToClose + close as TrimOpenConns: in the sequential model and in the first LTS (Conc.v) it is a TrimOpenConns issued by the "
+        "environment at any point; that the loop calls trim() WITHOUT trimMutex, so that it can overlap a TrimOpenConns or a ForceTrim, is modelled by the second LTS (Conc2.v: thread A = "
+        "trimMutex holder, thread B = background trim, ForceTrim split into its two passes of per-peer snapshot / sort / per-entry selection / close); clauses (c) and (d), the split decayer tick "
+        "and the complete-sweep condition of the snapshot are proved in Conc.v only; Conc2's sort result is any order and a snapshot may end early (supersets)",
+        "the overlap stream drives the real manager through one family of two-trim schedules (mock clock tick for the background loop, segments.bucketsMu held by the harness as a lever, "
+        "runtime.Stack goroutine states to see where the trims wait, closes attributed by goroutine); the other schedules of Conc2 are covered by the theorems only",
     ]
     standard_flow(ctx, dict(
         coq_targets=["c14/Properties.vo", "c14/Extract.vo"],
@@ -307,6 +310,12 @@ if __name__ == "__main__":
              "witnesses of Properties.v on the implementation. CONCURRENT cases (300 quick / 10000 thorough): 6 goroutines doing "
              "Connected/Disconnected/TagPeer/UntagPeer/UpsertTag on their own connection/tag ids of all peers while 2 goroutines call TrimOpenConns "
              "in a loop; at quiescence count and totals must equal what the op lists imply (interleaving-independent by construction) and no closed "
-             "connection may belong to a peer that was protected or inside its grace period throughout. Non-trivial = a trim closed at least one connection; distinct = distinct lines.",
+             "connection may belong to a peer that was protected or inside its grace period throughout. OVERLAP cases (3 directed + 200 quick / 6000 thorough, wire kind 3, outside the synctest bubble on a mock "
+             "clock): the background loop's trim() - triggered by advancing the clock to the loop's tick with connCount >= high - in flight together with a TrimOpenConns or a ForceTrim on the real "
+             "manager: both trims complete their snapshots (they wait for segments.bucketsMu, held by the harness), script 1 runs, the first trim sorts and selects as far as the segments held by the "
+             "second (parked in its comparator's Stat()) allow, script 2 runs, both finish; what each trim closed is recorded per goroutine; rendered as the event trace of the two-trim LTS (Conc2.v) "
+             "and judged by cmon2 (closed only own candidates: 30/31/32, nothing below low: 33, a deleted entry held no connection: 35, count/totals 3/4, ForceTrim by force_code when no script ran), the "
+             "monitor proved to accept every schedule of that LTS; conformance replays the schedule on the LTS. Directed: the stale-pointer schedule of c14_overlap_old_prune_by_id_lost_a_connected_peer "
+             "(regression of /repo 6213130), a protected early-tagged entry connecting between snapshot and selection, a ForceTrim with a low-valued protected peer. Non-trivial = a trim closed at least one connection; distinct = distinct lines.",
         describe=describe, key=key, what=what, crosscheck=80,
     ))
